@@ -35,7 +35,13 @@ def model_controls(ctx):
     if r.violated != "NoRollOrPaintTextErased":
         raise tlc.MachineryError("MC_SccReader_neg: expected NoRollOrPaintTextErased to be refuted, got %r" % r.violated)
     ctx.add_tlc(r, "negative control / observation: ENM in roll-up or paint-on mode erases the pending text of that mode")
-    return 1
+    # with last_command surviving every line change (as found), a later line's first word can be
+    # taken for a repetition
+    r2 = tlc.run("MC_SccReader", cfg="MC_SccReader_negline", allow_violation=True, workers=4)
+    if r2.violated != "LaterLineWordsAreExecuted":
+        raise tlc.MachineryError("MC_SccReader_negline: expected LaterLineWordsAreExecuted to be refuted, got %r" % r2.violated)
+    ctx.add_tlc(r2, "negative control: the reader as found (last_command kept across lines) skips the first word of a later line")
+    return 2
 
 
 def inputs(ctx):
@@ -53,6 +59,26 @@ def inputs(ctx):
         else:
             lines = c16.paint_program(rng, rng.randrange(1, 5), drop, rng.random() < 0.5, rich=rng.random() < 0.5)
         ins.append({"id": "u%d" % k, "lines": lines, "doubled": rng.random() < 0.5})
+    # a line that goes on in the frame right after the previous one and starts with the code that one
+    # ended with (the only case where a repetition is recognised across lines), next to the same
+    # program with a later label
+    for dbl in (False, True):
+        for drop in (False, True):
+            for gap in (0, 1, 2, 30):
+                for code in ("EOC", "EDM", "ENM"):
+                    a = [{"k": "ENM"}, {"k": "RCL"}, {"k": "PAC", "r": 14, "c": 0, "i": False},
+                         {"k": "CH", "a": 65, "b": 66}, {"k": "EOC"}]
+                    if code != "EOC":
+                        a.append({"k": code})
+                    words = (len(a) - 1) * (2 if dbl else 1) + 1
+                    b = [{"k": code}, {"k": "ENM"}, {"k": "RCL"}, {"k": "PAC", "r": 2, "c": 0, "i": False},
+                         {"k": "CH", "a": 67, "b": 68}, {"k": "EOC"}]
+                    f0, f1 = 900, 900 + words + gap
+                    tc = lambda f: [f // 108000, (f // 1800) % 60, (f // 30) % 60, f % 30]
+                    ins.append({"id": "s%d" % n, "doubled": dbl,
+                                "lines": [{"tc": tc(f0), "drop": drop, "syms": a}, {"tc": tc(f1), "drop": drop, "syms": b},
+                                          {"tc": tc(f1 + 90), "drop": drop, "syms": [{"k": "EDM"}]}]})
+                    n += 1
     # the inputs of the property checks, as they are
     class _Q:
         quick = True
